@@ -29,6 +29,8 @@ CONSTANTS
   TrampFlushed = TRUE
   Regen = FALSE
   SavedFrom = "install"
+  ForeignReuse = FALSE
+  AllocAt = "hint"
   MaxLives = 2
 INVARIANT NoFault TypeOK Mutex HolderIsLock PrevSeesOrig OwnFakes FreeMeansOrig NoAbort Reusable Restored NoLeak NoSelfDeadlock WX
 PROPERTY HandOver NoStuck
